@@ -110,7 +110,7 @@ pub async fn run(args: &ShardArgs, rep: &mut Report) {
 			rep.note("budget exhausted");
 			break;
 		}
-		let cfg = Cfg {
+		let mut cfg = Cfg {
 			filters: (0..pickn(&mut rng, &[0, 0, 1, 1, 2, 3])).map(|_| gen_pattern(&mut rng, false)).collect(),
 			ignores: (0..pickn(&mut rng, &[0, 0, 1, 1, 2, 3])).map(|_| gen_pattern(&mut rng, true)).collect(),
 			exts: (0..pickn(&mut rng, &[0, 0, 0, 1, 2])).map(|_| (*rng.pick(EXTS)).to_string()).collect(),
@@ -118,6 +118,26 @@ pub async fn run(args: &ShardArgs, rep: &mut Report) {
 			whitelist: (0..pickn(&mut rng, &[0, 0, 0, 1, 1, 3, 5])).map(|_| gen_rel(&mut rng)).collect(),
 			ignore_file: (0..pickn(&mut rng, &[0, 0, 0, 1, 2])).map(|_| gen_pattern(&mut rng, false)).collect(),
 		};
+		// a pattern given more than once: the later copy counts again (the last matching pattern decides), which shows
+		// when a negation sits between the copies — P, !P, P as a directed shape, and a random earlier entry repeated
+		match rng.below(8) {
+			0 => {
+				let p = gen_pattern(&mut rng, false);
+				cfg.ignores.extend([p.clone(), format!("!{p}"), p]);
+				rep.count("configs_with_a_repeated_ignore_pattern", 1);
+			}
+			1 | 2 if cfg.ignores.len() >= 2 => {
+				let again = cfg.ignores[rng.usize(cfg.ignores.len() - 1)].clone();
+				cfg.ignores.push(again);
+				rep.count("configs_with_a_repeated_ignore_pattern", 1);
+			}
+			3 if !cfg.filters.is_empty() => {
+				let again = cfg.filters[rng.usize(cfg.filters.len())].clone();
+				cfg.filters.push(again);
+			}
+			_ => {}
+		}
+		let cfg = cfg;
 		let igpath = origin.join(format!(".c11-ig-{}", ci % 4));
 		let filterer = match build(&origin, &cfg, &igpath).await {
 			Ok(f) => f,
@@ -128,7 +148,13 @@ pub async fn run(args: &ShardArgs, rep: &mut Report) {
 			}
 		};
 		// the same configuration plus one more non-negated ignore pattern (law L2)
-		let extra = gen_pattern(&mut rng, false);
+		let positive: Vec<&String> = cfg.ignores.iter().filter(|l| !l.starts_with('!')).collect();
+		let extra = if !positive.is_empty() && rng.chance(1, 3) {
+			// ... which may be one that is there already
+			(*rng.pick(&positive)).clone()
+		} else {
+			gen_pattern(&mut rng, false)
+		};
 		let mut cfg2 = cfg.clone();
 		cfg2.ignores.push(extra.clone());
 		let filterer2 = build(&origin, &cfg2, &igpath).await.ok();
